@@ -24,7 +24,7 @@ RULE = (
 ASSUMPTIONS = ["real multi-device execution is not available on this host; only the reshaping logic of the device axis is exercised"]
 CONFIG = {
     "quick": {"examples": 1280, "shards": 16, "shrink_s": 40, "time_budget_s": 240},
-    "thorough": {"examples": 10000, "shards": 16, "shrink_s": 200, "time_budget_s": 1500},
+    "thorough": {"examples": 80000, "shards": 16, "shrink_s": 200, "time_budget_s": 1500},
 }
 
 
